@@ -238,3 +238,53 @@ PLANS["C06"] = dict(
     assumptions=["a slice's backing array is identified by its data pointer (sub-slices of one array would need offsets; Clone never sub-slices)"],
     trusted_base=["TLC 2026.09.04", "CommunityModules Json/IOUtils", "unsafe.SliceData"],
 )
+
+# ---- C20 -------------------------------------------------------------------------------------------
+
+
+def run_c20(ctx):
+    ctx.mc("GenericMC", "GenericMC.cfg", workers=4, note="dispatch table total over the 22 entry points; sum/min laws associative under nesting")
+    cases = ctx.tlcgen("WkbGen", "WkbGen.cfg", workers=4)
+    shards = ctx.gen("genshapes", cases=cases)
+    ctx.validate("Generic_Trace", shards, stage="replay-of-TLC-shape-set")
+    shards = ctx.gen("genrandom")
+    ctx.validate("Generic_Trace", shards, stage="random-degenerate-shapes")
+    ctx.exhaustive = True
+    ctx.notes.append("exhaustive part: the 534-shape bounded set (nine kinds + nil, empty members, collections to depth 2) x 22 entry points")
+
+
+def _rings(g):
+    t = g.get("t")
+    if t == "Ring":
+        yield g["c"]
+    elif t == "Polygon":
+        for r in g["c"]:
+            yield r
+    elif t == "MultiPolygon":
+        for p in g["c"]:
+            for r in p:
+                yield r
+    elif t == "Collection":
+        for m in g["g"]:
+            for r in _rings(m):
+                yield r
+
+
+def sig_c20(ev):
+    s = sig_default(ev)
+    if ev.get("k") == "panic" and ev.get("fn") == "smartclip.Geometry" and str(ev.get("site", "")).endswith("sortableEndpoints).Less"):
+        # recorded finding: an unclosed ring of two vertices, one of them inside the box
+        if any(len(r) == 2 for r in _rings(ev.get("in", {}))):
+            return "panic:smartclip.Geometry@sortableEndpoints.Less:two-vertex-open-ring"
+    return s
+
+
+PLANS["C20"] = dict(
+    run=run_c20, signature=sig_c20,
+    technique="TLA+ dispatch table and collection laws over result values; TLC emits the bounded shape set, the harness calls every generic entry point, its kind-specific counterpart and the members, and TLC validates totality, agreement, the collection law and read-only-ness per event",
+    level_text="For every shape of the TLC-generated bounded set (nine kinds + nil interface, nil/empty slices, zero-ring polygons in multipolygons, zero-vertex rings in polygons, one-vertex lines, collections nested to depth 2) and seeded rectilinear degenerate-rich shapes, each of 22 generic entry points (Clone, Round, planar Area/CentroidArea/Length/DistanceFrom(WithIndex), geo Area/Length/LengthHaversine, clip, smartclip, project, three simplifiers, tilecover, wkb/ewkb/wkt Marshal, geojson geometry and feature) is called under recover; TLC requires: no panic, result = the kind-specific function's result, a collection's result = the law of the table applied to its members' results (map / sum / min / filter-unwrap / union), and the argument unchanged for the read-only entry points.",
+    level_note="The 'programs' half of the quantifier (every type switch in the source names all nine kinds) is a static property of source text and is not decided here; a switch that misses a kind is seen only through an entry point in the table. Float-valued results that are not exact on the integer lattice (geodesic measures, diagonal lengths) are compared for generic = typed by bit pattern but take no part in the arithmetic laws. Trusted: TLC, Json module, sha1 for byte/text results.",
+    rule="one event = one entry point applied to one shape (generic result, typed result, member results, argument after the call); non-trivial = non-nil shape; distinct = distinct event text",
+    assumptions=["panics are recovered and recorded with the innermost orb function on the stack as the site"],
+    trusted_base=["TLC 2026.09.04", "CommunityModules Json/IOUtils", "crypto/sha1"],
+)
